@@ -59,12 +59,19 @@ func runA8(c *core.Ctx) {
 			if tg.only != nil && !tg.only[fd.Name.Name] {
 				continue
 			}
-			if tg.only == nil && !strings.HasPrefix(fd.Name.Name, "_asm_OP_") {
+			// handlers, and the stand-alone routines linked once per program (escape_string_twice,
+			// skip_one, type_error ...: methods without operands); helpers that take operands are
+			// judged where they are inlined
+			isHandler := strings.HasPrefix(fd.Name.Name, "_asm_OP_")
+			if tg.only == nil && !isHandler && fd.Type.Params.NumFields() != 0 {
 				continue
 			}
 			fn := handlerName(a.pk, fd)
 			seqs, ok := a.seqs(fd, asmEnv{}, 0)
 			if !ok {
+				if !isHandler && tg.only == nil {
+					continue
+				}
 				c.Undecided(fn+"/flags", fd.Pos(), "cannot enumerate emitted sequences")
 				continue
 			}
